@@ -38,6 +38,7 @@ type Pkg struct {
 	DocRels   []Rel
 	OtherRels map[string][]Rel // rels part name -> rels
 	DocName   string
+	Stored    bool // write every entry with method Store instead of Deflate
 }
 
 // New returns a package skeleton with the usual defaults.
@@ -72,6 +73,11 @@ func (p *Pkg) Bytes() []byte {
 	var buf bytes.Buffer
 	zw := zip.NewWriter(&buf)
 	w := func(name string, data []byte) {
+		if p.Stored {
+			f, _ := zw.CreateHeader(&zip.FileHeader{Name: name, Method: zip.Store})
+			f.Write(data)
+			return
+		}
 		f, _ := zw.Create(name)
 		f.Write(data)
 	}
